@@ -60,8 +60,11 @@ Reorder(s, ord) == CASE ord = 1 -> s
                      [] ord = 3 -> [i \in 1..Len(s) |-> s[((i + 1) % Len(s)) + 1]]
 UnitName(u) == CASE u = "m" -> "Meter" [] u = "ft" -> "Foot" [] u = "us-ft" -> "Foot_US"
 UnitFactor(u) == CASE u = "m" -> "UF_M" [] u = "ft" -> "UF_FT" [] u = "us-ft" -> "UF_USFT"
+(* the spheroid's name: an unknown one, or one of the names the parser recognises - the figures that follow it are what
+   counts either way (a .prj file may carry a well-known name with its own, e.g. rounded, figures) *)
+SphName(c) == CASE c.ord = 2 -> "GRS_1980" [] c.ord = 3 -> "WGS_1984" [] OTHER -> "verif_spheroid"
 GeogCS(c) == Sec("GEOGCS", <<Q("GCS_verif"),
-                 Sec("DATUM", <<Q("D_verif"), Sec("SPHEROID", <<Q("verif_spheroid"), V("A"), V("RF")>>)>>
+                 Sec("DATUM", <<Q("D_verif"), Sec("SPHEROID", <<Q(SphName(c)), V("A"), V("RF")>>)>>
                               \o (IF c.tw = 0 THEN <<>> ELSE <<Sec("TOWGS84", <<V(IF c.tw = 3 THEN "TW3" ELSE "TW7")>>)>>)),
                  Sec("PRIMEM", <<Q("Greenwich"), V("ZERO")>>),
                  Sec("UNIT", <<Q("Degree"), V("DEG")>>)>>)
